@@ -3,6 +3,7 @@
 #include "../plat.h"
 #include "../obs.h"
 #include "../gen.h"
+#include "checks/corpus.h"
 
 namespace {
 struct Local { uint64_t esc_cases = 0, unesc_cases = 0, roundtrips = 0, shrunk = 0, malformed = 0, breaks = 0; };
@@ -35,7 +36,7 @@ static Str ref_unescape(const Str &s, bool plus, int mode, uint64_t *malformed, 
 
 template <class C> struct Runner {
     typedef Api<C> A; FenceBuf in; OutBuf out; Ctx *ctx; Local *lc;
-    Runner(Ctx *c, Local *l) : in(4), out(8), ctx(c), lc(l) {}
+    Runner(Ctx *c, Local *l, size_t ip = 4, size_t op = 8) : in(ip), out(op), ctx(c), lc(l) {}
     void escape_case(const Str &s, int only_plus = -1, int only_nb = -1) {
         std::basic_string<C> w = widen<C>(s);
         for (int plus = 0; plus < 2; plus++) for (int nb = 0; nb < 2; nb++) for (int entry = 0; entry < 2; entry++) {
@@ -108,6 +109,12 @@ void run(Ctx &ctx) {
         token_seqs(toks, nt, [&](const std::vector<int> &seq) { if (!ctx.mine(ti++) || ctx.expired()) return; Str t; for (int k : seq) t += toks[k]; ra.unescape_case(t); rw.unescape_case(t); });
         std::vector<Str> etoks = { "\r", "\n", " ", "a", "%", "\xff", "+" }; int ne = ctx.secondary ? 3 : ctx.quick() ? 6 : 7; (void)ne;
     }
+    // stretch family: one unit repeated to lengths around the powers of two (counters and size arithmetic in too narrow a type)
+    {
+        Runner<char> sa(&ctx, &lc, 520, 1620); Runner<wchar_t> sb(&ctx, &lc, 520, 1620); uint64_t si = 0; std::vector<int> L = stretch_lengths(ctx.secondary ? 0 : ctx.quick() ? 1 : 2);
+        for (const char *u : { "a", " ", "\n", "\r", "\r\n", "\xff", "%", "a \n" }) for (int n : L) { if (!ctx.mine(si++) || ctx.expired()) continue; Str s; for (int i = 0; i < n; i++) s += u; if (s.size() > 66000) continue; sa.escape_case(s); sb.escape_case(s); ctx.st.count("stretch_family"); }
+        for (const char *u : { "%41", "%0D%0A", "%0d", "%0A", "%", "+", "a", "%4", "%4g%41" }) for (int n : L) { if (!ctx.mine(si++) || ctx.expired()) continue; Str s; for (int i = 0; i < n; i++) s += u; sa.unescape_case(s); sb.unescape_case(s); ctx.st.count("stretch_family"); }
+    }
     if (sw.tripped()) ctx.violation("", "E`a`0`0`A", "AddressSanitizer reported an invalid access");
     ctx.st.count("evaluations", lc.esc_cases + lc.unesc_cases); ctx.st.count("escape_cases", lc.esc_cases); ctx.st.count("unescape_cases", lc.unesc_cases); ctx.st.count("roundtrips", lc.roundtrips);
     ctx.st.count("unescape_shrunk", lc.shrunk); ctx.st.count("malformed_percent_seen", lc.malformed); ctx.st.count("encoded_breaks_seen", lc.breaks);
@@ -115,14 +122,14 @@ void run(Ctx &ctx) {
 }
 void replay(Ctx &ctx, const Str &enc) {
     std::vector<Str> p = split(enc, '`'); if (p.size() != 5) return; Local lc; int a = atoi(p[2].c_str()), b = atoi(p[3].c_str());
-    if (p[4] == "A") { Runner<char> r(&ctx, &lc); if (p[0] == "E") r.escape_case(p[1], a, b); else r.unescape_case(p[1], a, b); }
-    else { Runner<wchar_t> r(&ctx, &lc); if (p[0] == "E") r.escape_case(p[1], a, b); else r.unescape_case(p[1], a, b); }
+    if (p[4] == "A") { Runner<char> r(&ctx, &lc, 520, 1620); if (p[0] == "E") r.escape_case(p[1], a, b); else r.unescape_case(p[1], a, b); }
+    else { Runner<wchar_t> r(&ctx, &lc, 520, 1620); if (p[0] == "E") r.escape_case(p[1], a, b); else r.unescape_case(p[1], a, b); }
 }
 Str coverage(const Ctx &, const Stats &st) {
     return jkv("evaluations", st.get("evaluations")) + ", " + jkv("distinct_nontrivial", st.get("unescape_shrunk") + st.get("roundtrips")) + ", " +
            jkvs("rule", "cases = (string, flags, entry point, char type). Escape: every single character 1..255, every pair over 14 symbols (letters, digit, ~, space, +, %, CR, LF, 0x01, 0x7F, 0x80, 0xFF, /), all strings up to length Le over {a, space, +, %, CR, LF, 0xFF}; both flags; explicit range and NUL-terminated; output placed in a buffer of exactly 3n+1 (6n+1) characters ending at an inaccessible page. Unescape: all strings up to length Lu over {%, 0, a, A, d, D, g, +, x, CR, LF} and all sequences of up to 4 (quick) / 5 tokens over {%0D, %0A, %0d, %0a, %, %A, %4, %g, a, +, %41, CR, LF, %2}; plus on/off; four break modes; buffer of exactly strlen+1 characters ending at an inaccessible page. Oracles: an independent escape/unescape pair, output alphabet, bounds, returned pointer, and the library's own unescape(escape(x)). distinct_nontrivial = unescape cases that actually shortened the string + completed escape round trips (each a distinct case by construction).") + ", " +
            jkv("escape_cases", st.get("escape_cases")) + ", " + jkv("unescape_cases", st.get("unescape_cases")) + ", " + jkv("roundtrips", st.get("roundtrips")) + ", " + jkv("unescape_shrunk", st.get("unescape_shrunk")) + ", " +
-           jkv("malformed_percent_seen", st.get("malformed_percent_seen")) + ", " + jkv("encoded_breaks_seen", st.get("encoded_breaks_seen")) + ", " + jkv("escape_max_len", st.get("Le")) + ", " + jkv("unescape_max_len", st.get("Lu")) + ", " + jsamples(st);
+           jkv("malformed_percent_seen", st.get("malformed_percent_seen")) + ", " + jkv("encoded_breaks_seen", st.get("encoded_breaks_seen")) + ", " + jkv("escape_max_len", st.get("Le")) + ", " + jkv("unescape_max_len", st.get("Lu")) + ", " + jkv("stretch_family_strings", st.get("stretch_family")) + ", " + jsamples(st);
 }
 Check chk = { "C16", "exploration", run, replay, coverage, "line-break conversion on unescape is defined on percent-encoded breaks (%0D%0A, %0D, %0A), as the implementation documents; raw CR/LF characters pass through|wide code points above 255 are outside the statement's quantifier" };
 REGISTER_CHECK(chk);
